@@ -361,14 +361,22 @@ def r21(e: Engine, rep: Report):
                 return True
             return False
 
-        def step(n, label, st):
+        nul = common.Nullness(g, e)
+
+        def step(n, label, st0):
+            st, ns = st0
             if fx.infeasible(n, label):
                 return None
+            # what a helper handed back (tagged tuple / None) decides the
+            # caller's test of it
+            ns = nul.step(n, label, ns)
+            if ns == 'infeasible':
+                return None
             if st:
-                return True
+                return (True, ns)
             if n in fail_tests and label == 'T':
-                return True
-            return False
+                return (True, ns)
+            return (False, ns)
         # a list with one value per result (failing or not) is not a
         # verdict: picking the reply out of it by order / position lets a
         # success outrank a failure
@@ -413,7 +421,8 @@ def r21(e: Engine, rep: Report):
                 marks = []
         for mk in marks:
             pth = dataflow.typestate_witness(
-                g, False, step, lambda n, st: n is mk and st)
+                g, (False, frozenset()), step,
+                lambda n, st: n is mk and st[0])
             if pth:
                 bad = pth
                 break
@@ -809,9 +818,13 @@ def r24(e: Engine, rep: Report):
                            for y in ast.walk(val)):
                         picked.add(tname)
                         changed = True
-            uuid_rets = [n for n in g.of_kind('stmt')
-                         if isinstance(n.ast, ast.Return) and
-                         'uuid' in ast.unparse(n.ast)]
+            # where the fresh id is made (the call itself: it may sit in
+            # a conditional expression whose value is returned later)
+            uuid_rets = [n for n in g.calls()
+                         if 'uuid' in ast.unparse(n.ast.func)] or [
+                n for n in g.of_kind('stmt')
+                if isinstance(n.ast, ast.Return) and
+                'uuid' in ast.unparse(n.ast)]
             ok = bool(uuid_rets) and all(any(
                 (p and k == sp + ' is None') or (not p and k == sp)
                 for p, k in (fx.at(r) or ()) for sp in picked)
@@ -906,10 +919,21 @@ def r25(e: Engine, rep: Report):
            canon(n.ast.value.func, n.frame) == 'self._run_policies' and
            isinstance(n.ast.targets[0], ast.Name)]
     rep.evaluations += 1
-    if len(src) != 1:
+    var = None
+    if len(src) == 1:
+        var = path_of(src[0].ast.targets[0], src[0].frame)
+    elif not src:
+        # handed straight to a helper: its parameter names the list
+        for b in g.of_kind('bind'):
+            a = b.extra.get('arg')
+            if isinstance(a, ast.Call) and not b.extra.get('is_self') and \
+                    canon(a.func, b.extra['arg_frame']) == \
+                    'self._run_policies':
+                var = '%s#%d' % (b.extra['param'], b.frame.id)
+                src = [b]
+    if var is None or len(src) != 1:
         rep.error('anchor vanished: result of _run_policies in enqueue')
         return
-    var = path_of(src[0].ast.targets[0], src[0].frame)
     short = var.split('#')[0]
 
     def mentions(x, fr):
